@@ -82,7 +82,7 @@ class TlcResult:
 
 
 def java_cmd(xmx="4g", extra_props=()):
-    return ["java", "-Xms256m", "-Xmx" + xmx, "-Xss32m", "-XX:+UseSerialGC"] + list(extra_props) + [
+    return ["java", "-Xms256m", "-Xmx" + xmx, "-Xss256m", "-XX:+UseSerialGC"] + list(extra_props) + [
         "-DTLA-Library=" + SPEC, "-cp", JARS, "tlc2.TLC"]
 
 
@@ -176,8 +176,10 @@ def validate_trace(module_path, cfg_text, events, workdir, shards=16, timeout=90
                 elif isinstance(v, tuple) and v and v[0] == "DONE":
                     done = v[1]
             if not r.ok or done != len(buckets[i]):
-                raise MachineryError("trace validation shard %d of %s did not finish (done=%r of %d):\n%s"
-                                     % (i, name, done, len(buckets[i]), r.clean()[-3000:]))
+                c = r.clean()
+                k = c.find("Error:")
+                raise MachineryError("trace validation shard %d of %s did not finish (done=%r of %d):\n%s\n...\n%s"
+                                     % (i, name, done, len(buckets[i]), c[max(0, k - 200):k + 1800] if k >= 0 else "", c[-600:]))
             generated += r.generated
             distinct += r.distinct
             wall = max(wall, r.wall)
